@@ -256,6 +256,14 @@ func runC20(r *simkit.R) {
 				if notRW() {
 					op.flag2 = true
 				}
+				for i := range w.shards {
+					if w.modeOf(i).NoMetabase() {
+						op.degSeen = true
+					}
+				}
+				if op.kind == "mode" {
+					op.prev = w.modeOf(op.sh)
+				}
 				w.exec(op)
 			}
 		},
@@ -306,6 +314,9 @@ func runC20(r *simkit.R) {
 				// every operation in flight during a mode switch may have met a non-read-write shard
 				for o := range inFlight {
 					o.flag2 = true
+					if op.m.NoMetabase() || op.prev.NoMetabase() {
+						o.degSeen = true
+					}
 				}
 				return
 			}
@@ -350,6 +361,13 @@ func runC20(r *simkit.R) {
 					}
 					for _, h := range w.holders(op.id) {
 						if w.modeOf(h).NoMetabase() {
+							out.bad = "a shard holding its blob is in a degraded (no-metabase) mode"
+						}
+					}
+					if out.bad == "" && op.degSeen {
+						// (the mode was left while the read was running)
+						out.bad = "another shard is in a degraded (no-metabase) mode: the engine re-reads the remaining shards ignoring their metadata"
+						if len(w.shards) == 1 || len(w.holders(op.id)) > 0 {
 							out.bad = "a shard holding its blob is in a degraded (no-metabase) mode"
 						}
 					}
